@@ -918,6 +918,23 @@ class _Exec:
         n = _int(self.eval(it.args[0], st))
         ivar = node.target.id
         mod_names, mod_arrays = _modified(node.body)
+        # arrays written through calls: the callee's declared frame (`modifies`), or - for an external without a
+        # declared frame - conservatively every array handed to it
+        for sub in ast.walk(ast.Module(body=node.body, type_ignores=[])):
+            if not isinstance(sub, ast.Call):
+                continue
+            f = self.spec.externals.get(self.dotted(sub.func) or "")
+            if f is None or getattr(f, "pure", False):
+                continue
+            positions = getattr(f, "modifies_positions", None)
+            for k, a in enumerate(sub.args):
+                if positions is not None and k not in positions:
+                    continue
+                b = a
+                while isinstance(b, ast.Subscript):
+                    b = b.value
+                if isinstance(b, ast.Name) and isinstance(st.vars.get(b.id), (Arr, View)):
+                    mod_arrays.add(b.id)
         self.loops[ordinal] = {"var": ivar, "arrays": sorted(mod_arrays)}
         tag = f"loop{ordinal}@line{node.lineno}"
         entry_env = Env(self.entry.vars, self.entry.heap, self.ghost, self.loops)
@@ -1207,6 +1224,7 @@ def call_contract(spec: FnSpec, ghost_args=None):
             st.pc.append(_bool(c))
         return None
 
+    call.modifies_positions = tuple(k for k, (n, _) in enumerate(spec.params) if n in spec.modifies)
     return call
 
 
